@@ -95,12 +95,44 @@ class Interp:
         self.processed = []  # (event brief, outgoing list)
         self.steps_last = 0
         self.max_steps = 0
+        self.started = False
 
     def start(self):
-        return self.deliver(self.InternalEvent(name="StartFlow", arguments={"flow_id": "main"}))
+        """Start of story as RuntimeV2_x.process_events does it: module-level ``@active`` flows are started
+        (activated, as children of main) before the main flow itself."""
+        from nemoguardrails.utils import new_readable_uuid
 
-    def deliver(self, event, budget_factor=1):
+        self.started = True
+        main_flow_state = self.state.flow_id_states["main"][-1]
+        idx = 0
+        pre = []
+        for flow_config in reversed(list(self.state.flow_configs.values())):
+            if "active" in flow_config.decorators:
+                pre.insert(0, self.InternalEvent(name="StartFlow", arguments={
+                    "flow_id": flow_config.id,
+                    "source_flow_instance_uid": main_flow_state.uid,
+                    "flow_instance_uid": new_readable_uuid(flow_config.id),
+                    "flow_hierarchy_position": "0.0.%d" % idx,
+                    "source_head_uid": list(main_flow_state.heads.values())[0].uid,
+                    "activated": True,
+                }))
+                idx += 1
+        out = []
+        for ev in pre:
+            out += self.deliver(ev, _raw=True)
+        out += self.deliver(self.InternalEvent(name="StartFlow", arguments={"flow_id": "main"}), _raw=True)
+        return out
+
+    def deliver(self, event, budget_factor=1, _raw=False):
         from nemoguardrails.colang.v2_x.runtime.statemachine import run_to_completion
+
+        # like process_events: when the main flow has finished and waits to be started again, the story is
+        # started again before the next external event is processed
+        if not _raw and self.started and self.state.main_flow_state is not None and self.state.main_flow_state.status.name == "WAITING":
+            pre = self.start()
+            out = self.deliver(event, budget_factor, _raw=True)
+            self.processed[-1] = (self.processed[-1][0], pre + out)
+            return pre + out
 
         COUNTER.steps = 0
         COUNTER.budget = self.budget * budget_factor
